@@ -9,7 +9,8 @@ Correspondence (model vs implementation, every run):
 Search (oracle: NumPy values + the documented resolution of the spec followed by normalize_chunks):
   every spec kind (int, tuple of ints, tuple of tuples, dict incl. negative axes, -1, None per axis, 'auto', byte
   strings, block_size_limit=, balance=True) on random arrays under several graph shapes (rechunk absorbed by the
-  source, TasksRechunk, pushed through elemwise / transpose / concatenate / expand_dims, composed with slices,
+  source — NumPy sources, chunked stores, and stores of ENCODED samples read through a decoding getitem= (4- / 2-argument,
+  with lock / asarray / fancy / inline_array), directly and below elemwise / transpose / a slice —, TasksRechunk, pushed through elemwise / transpose / concatenate / expand_dims, composed with slices,
   rechunk of rechunk), unknown sizes (allowed along unchanged axes, ValueError along changed ones), and rechunk at
   random positions of random programs.
   Call histories: the same rechunk (same array layout, spec, kwargs) repeated under a SEQUENCE of configurations in one
@@ -140,7 +141,40 @@ def rand_spec(rng, shape):
     return kind, spec, kw
 
 
-WRAPS = ("io", "blk", "elem", "tr", "cat", "exp", "slice", "slice-nocull", "slice-nocull", "rr", "store", "store-slice")
+WRAPS = ("io", "blk", "elem", "tr", "cat", "exp", "slice", "slice-nocull", "slice-nocull", "rr", "store", "store-slice",
+         "coded", "coded-elem", "coded-tr", "coded-slice")
+CODE_OFFSET = 1000
+
+
+class _CodedStore:
+    """An array-like whose samples are stored ENCODED (offset + sign flip, int64); `from_array(..., getitem=_decode)` decodes on
+    read, the way a packed on-disk variable is decoded.  A rechunk absorbed by such a read must keep reading through the getter."""
+
+    def __init__(self, a, chunks=None):
+        self._raw = CODE_OFFSET - a.astype("int64")
+        self.shape = a.shape
+        self.dtype = a.dtype
+        self.ndim = a.ndim
+        if chunks is not None:
+            self.chunks = tuple(chunks)
+
+    def __getitem__(self, idx):
+        return self._raw[idx]
+
+
+def _decode(a, index, asarray=True, lock=None):
+    if lock:
+        lock.acquire()
+    try:
+        block = np.asarray(a[index])
+    finally:
+        if lock:
+            lock.release()
+    return (CODE_OFFSET - block).astype(a.dtype)
+
+
+def _decode2(a, index):
+    return (CODE_OFFSET - np.asarray(a[index])).astype(a.dtype)
 
 
 class _Store:
@@ -169,6 +203,20 @@ def build(case):
         x = da.from_array(_Store(data, case["storage"]), chunks=tuple(tuple(c) for c in case["chunks"]))
         if w == "store":
             return x, data
+        idx = tuple(slice(a, b) for a, b in case["index"])
+        return x[idx], data[idx]
+    if w.startswith("coded"):
+        opts = dict(case.get("read", {}))
+        kw = {"getitem": _decode2 if opts.pop("two_arg", False) else _decode}
+        kw.update(opts)
+        x = da.from_array(_CodedStore(data, case.get("storage")), chunks=tuple(tuple(c) for c in case["chunks"]), **kw)
+        if w == "coded":
+            return x, data
+        if w == "coded-elem":
+            return x * 2 + 1, data * 2 + 1
+        if w == "coded-tr":
+            axes = tuple(case["axes"])
+            return da.transpose(x, axes), np.transpose(data, axes)
         idx = tuple(slice(a, b) for a, b in case["index"])
         return x[idx], data[idx]
     x = da.from_array(data, chunks=tuple(tuple(c) for c in case["chunks"]))
@@ -207,9 +255,26 @@ def rand_case(rng, maxdim, zeros=0.0):
         "dtype": rng.choice(["int64", "int64", "int32", "int8", "float64"]), "wrap": rng.choice(WRAPS),
     }
     w = case["wrap"]
-    if w == "tr":
+    if w.startswith("coded"):
+        # the read options next to getitem= that a rebuilt source node has to carry too
+        read = {}
+        if rng.random() < 0.3:
+            read["two_arg"] = True
+        if rng.random() < 0.3:
+            read["lock"] = True
+        if rng.random() < 0.4:
+            read["asarray"] = rng.random() < 0.5
+        if rng.random() < 0.3:
+            read["fancy"] = False
+        if rng.random() < 0.3:
+            read["inline_array"] = True
+        case["read"] = read
+        case["chunks"] = [list(gen.rand_chunks(rng, s)) for s in shape]
+        if rng.random() < 0.3:
+            case["storage"] = [rng.randint(1, max(1, s)) for s in shape]
+    if w in ("tr", "coded-tr"):
         if rank < 2:
-            case["wrap"] = "blk"
+            case["wrap"] = "blk" if w == "tr" else "coded"
         else:
             ax = list(range(rank))
             rng.shuffle(ax)
@@ -222,7 +287,7 @@ def rand_case(rng, maxdim, zeros=0.0):
     if w in ("store", "store-slice"):
         case["storage"] = [rng.randint(1, max(1, s)) for s in shape]
         case["chunks"] = [list(c) for c in (gen.rand_chunks(rng, s) for s in shape)]
-    if w in ("slice", "store-slice"):
+    if w in ("slice", "store-slice", "coded-slice"):
         idx = []
         for s in shape:
             a = rng.randint(0, max(0, s - 1))
@@ -525,7 +590,7 @@ def effective_balance_spec(rng, shape):
 
 def search_extra(ctx):
     rng = ctx.rng
-    wraps = ("io", "blk", "elem", "tr", "exp", "cat")
+    wraps = ("io", "blk", "elem", "tr", "exp", "cat", "coded", "coded-elem")
 
     def base(maxdim):
         case = rand_case(rng, maxdim)
@@ -1323,7 +1388,8 @@ def run(ctx, replay=None):
     from dask_array import _rechunk as R
 
     ctx.rule = (
-        "seeded random arrays (rank ≤ 3) × graph shape (rechunk absorbed by the source / TasksRechunk / through elemwise, "
+        "seeded random arrays (rank ≤ 3) × graph shape (rechunk absorbed by the source: NumPy arrays, chunked stores, stores of "
+        "encoded samples read through a decoding getitem= with lock / asarray / fancy / inline_array / TasksRechunk / through elemwise, "
         "transpose, concatenate, expand_dims / composed with a slice / rechunk of rechunk) × spec kind (10 kinds) incl. "
         "zero-width chunks; unknown-size arrays × (un)changed axis; random programs with rechunk steps; distinct = "
         "(graph shape, spec kind, rank, zero-width, balance) / (unknown: outcome × changed) / (program: op, length, rank); "
